@@ -12,14 +12,14 @@ import (
 	"github.com/google/martian/v3/zzverif/vf"
 )
 
-func frameBytes(f func(fr *http2.Framer)) []byte {
+func zzframeBytes(f func(fr *http2.Framer)) []byte {
 	var b bytes.Buffer
 	fr := http2.NewFramer(&b, nil)
 	f(fr)
 	return b.Bytes()
 }
 
-func headerBlock() []byte {
+func zzheaderBlock() []byte {
 	var b bytes.Buffer
 	e := hpack.NewEncoder(&b)
 	e.WriteField(hpack.HeaderField{Name: ":method", Value: "GET"})
@@ -32,7 +32,7 @@ func headerBlock() []byte {
 // it dialled must be closed, and once the caller has closed the client
 // connection no goroutine of the session may remain.
 func VerifC10Terminate() {
-	client, server := newEndpointConn("client"), newEndpointConn("server")
+	client, server := zznewEndpointConn("client"), zznewEndpointConn("server")
 	vf.TLSDialTarget(server)
 	closing := make(chan bool)
 	cfg := &Config{}
@@ -77,16 +77,16 @@ func VerifC10Terminate() {
 
 	switch state {
 	case 1: // mid-stream: a request has been forwarded
-		client.send(frameBytes(func(fr *http2.Framer) {
-			fr.WriteHeaders(http2.HeadersFrameParam{StreamID: 1, BlockFragment: headerBlock(), EndHeaders: true})
+		client.send(zzframeBytes(func(fr *http2.Framer) {
+			fr.WriteHeaders(http2.HeadersFrameParam{StreamID: 1, BlockFragment: zzheaderBlock(), EndHeaders: true})
 		}))
 	case 2: // DATA blocked behind a zero stream window
-		server.send(frameBytes(func(fr *http2.Framer) {
+		server.send(zzframeBytes(func(fr *http2.Framer) {
 			fr.WriteSettings(http2.Setting{ID: http2.SettingInitialWindowSize, Val: 0})
 		}))
 		vf.Quiesce()
-		client.send(frameBytes(func(fr *http2.Framer) {
-			fr.WriteHeaders(http2.HeadersFrameParam{StreamID: 1, BlockFragment: headerBlock(), EndHeaders: true})
+		client.send(zzframeBytes(func(fr *http2.Framer) {
+			fr.WriteHeaders(http2.HeadersFrameParam{StreamID: 1, BlockFragment: zzheaderBlock(), EndHeaders: true})
 			fr.WriteData(1, false, []byte("blocked"))
 		}))
 	case 3: // the output channel towards the server is full: its writer is held in a write the
@@ -94,9 +94,9 @@ func VerifC10Terminate() {
 		gate = make(chan struct{})
 		server.gate = gate
 		vf.FixedSchedule(true) // filling the channel: one schedule; the event phase explores them all
-		client.send(frameBytes(func(fr *http2.Framer) {
-			fr.WriteHeaders(http2.HeadersFrameParam{StreamID: 1, BlockFragment: headerBlock(), EndHeaders: true})
-			for i := 0; i < 20; i++ {
+		client.send(zzframeBytes(func(fr *http2.Framer) {
+			fr.WriteHeaders(http2.HeadersFrameParam{StreamID: 1, BlockFragment: zzheaderBlock(), EndHeaders: true})
+			for i := 0; i < 40; i++ { // well above the capacity of the output channel
 				fr.WriteData(1, false, []byte{byte(i)})
 			}
 		}))
@@ -115,10 +115,10 @@ func VerifC10Terminate() {
 		server.endpointCloses()
 	case 2: // a write towards the server fails
 		server.failWrites = true
-		client.send(frameBytes(func(fr *http2.Framer) { fr.WritePing(false, [8]byte{9}) }))
+		client.send(zzframeBytes(func(fr *http2.Framer) { fr.WritePing(false, [8]byte{9}) }))
 	case 3: // a write towards the client fails
 		client.failWrites = true
-		server.send(frameBytes(func(fr *http2.Framer) { fr.WritePing(false, [8]byte{9}) }))
+		server.send(zzframeBytes(func(fr *http2.Framer) { fr.WritePing(false, [8]byte{9}) }))
 	case 4: // protocol error: garbage instead of a frame, from either side
 		garbage := []byte{0, 0, 5, 4, 0, 0, 0, 0, 0, 1, 2, 3, 4, 5} // a SETTINGS frame whose length is not a multiple of 6
 		if vf.Choice("garbage-from-server", 2) == 1 {
@@ -130,8 +130,8 @@ func VerifC10Terminate() {
 		close(closing)
 	case 6: // the only write towards the client that fails is the window credit for DATA it sent
 		client.failWrites = true
-		client.send(frameBytes(func(fr *http2.Framer) {
-			fr.WriteHeaders(http2.HeadersFrameParam{StreamID: 5, BlockFragment: headerBlock(), EndHeaders: true})
+		client.send(zzframeBytes(func(fr *http2.Framer) {
+			fr.WriteHeaders(http2.HeadersFrameParam{StreamID: 5, BlockFragment: zzheaderBlock(), EndHeaders: true})
 			fr.WriteData(5, false, []byte("x"))
 		}))
 	}
@@ -157,7 +157,7 @@ func VerifC10Terminate() {
 // the server opens the window, so the server->client direction may push the
 // whole backlog into the output queue of a direction whose writer has gone.
 func VerifC10Backlog() {
-	client, server := newEndpointConn("client"), newEndpointConn("server")
+	client, server := zznewEndpointConn("client"), zznewEndpointConn("server")
 	vf.TLSDialTarget(server)
 	closing := make(chan bool)
 	cfg := &Config{}
@@ -169,7 +169,7 @@ func VerifC10Backlog() {
 	}()
 	vf.FixedSchedule(true) // set-up phase: one schedule
 	client.send(connectionPreface)
-	server.send(frameBytes(func(fr *http2.Framer) {
+	server.send(zzframeBytes(func(fr *http2.Framer) {
 		fr.WriteSettings(http2.Setting{ID: http2.SettingInitialWindowSize, Val: 0})
 	}))
 	vf.Quiesce()
@@ -177,8 +177,8 @@ func VerifC10Backlog() {
 	if !vf.Symbolic() {
 		n = 60 // native replay: a backlog large enough that the writer almost surely exits before it is drained
 	}
-	client.send(frameBytes(func(fr *http2.Framer) {
-		fr.WriteHeaders(http2.HeadersFrameParam{StreamID: 1, BlockFragment: headerBlock(), EndHeaders: true})
+	client.send(zzframeBytes(func(fr *http2.Framer) {
+		fr.WriteHeaders(http2.HeadersFrameParam{StreamID: 1, BlockFragment: zzheaderBlock(), EndHeaders: true})
 		for i := 0; i < n; i++ {
 			fr.WriteData(1, false, []byte{byte(i)})
 		}
@@ -187,7 +187,7 @@ func VerifC10Backlog() {
 	if vf.Symbolic() {
 		vf.FixedSchedule(false) // the race: every schedule
 		client.endpointCloses()
-		server.send(frameBytes(func(fr *http2.Framer) { fr.WriteWindowUpdate(1, 1000) }))
+		server.send(zzframeBytes(func(fr *http2.Framer) { fr.WriteWindowUpdate(1, 1000) }))
 		vf.Quiesce()
 	} else {
 		// Native replay cannot choose the schedule; it steers the same race through the
@@ -195,7 +195,7 @@ func VerifC10Backlog() {
 		// piles up in the output queue while the client goes away, then released.
 		gate := make(chan struct{})
 		server.gate = gate
-		server.send(frameBytes(func(fr *http2.Framer) { fr.WriteWindowUpdate(1, 1000) }))
+		server.send(zzframeBytes(func(fr *http2.Framer) { fr.WriteWindowUpdate(1, 1000) }))
 		vf.Quiesce()
 		client.endpointCloses()
 		vf.Quiesce()
